@@ -239,7 +239,7 @@ class Gen:
         w = self.r.choice([1, 2])
         p, q = self.get_b(), self.get_b()
         c1 = self.fresh("b")
-        kind = self.r.choice(["same", "neg", "demorgan", "and_sub", "notnamed"])
+        kind = self.r.choice(["same", "neg", "demorgan", "demorgan_and", "demorgan_and", "and_sub", "notnamed"])
         if kind == "same":
             self.emit(f"bin {c1} and {p} {q}")
             self.vars[c1] = ('b', 1)
@@ -255,6 +255,18 @@ class Gen:
             self.emit(f"not {np_} {p}"); self.emit(f"not {nq} {q}")
             self.vars[np_] = ('b', 1); self.vars[nq] = ('b', 1)
             c2 = self.fresh("b"); self.emit(f"bin {c2} and {np_} {nq}"); self.vars[c2] = ('b', 1)
+        elif kind == "demorgan_and":
+            # NOT over a NAMED and, inside a larger conjunction, vs the De-Morgan-wrong flat conjunction (finding F1)
+            r_ = self.get_b()
+            a = self.fresh("b"); self.emit(f"bin {a} and {p} {q}"); self.vars[a] = ('b', 1)
+            self.emit(f"name {a} n_{a}")
+            na = self.fresh("b"); self.emit(f"not {na} {a}"); self.vars[na] = ('b', 1)
+            self.emit(f"bin {c1} and {na} {r_}"); self.vars[c1] = ('b', 1)
+            np_, nq = self.fresh("b"), self.fresh("b")
+            self.emit(f"not {np_} {p}"); self.emit(f"not {nq} {q}")
+            self.vars[np_] = ('b', 1); self.vars[nq] = ('b', 1)
+            nn = self.fresh("b"); self.emit(f"bin {nn} and {np_} {nq}"); self.vars[nn] = ('b', 1)
+            c2 = self.fresh("b"); self.emit(f"bin {c2} and {nn} {r_}"); self.vars[c2] = ('b', 1)
         elif kind == "and_sub":
             self.emit(f"bin {c1} and {p} {q}"); self.vars[c1] = ('b', 1)
             c2 = p
